@@ -41,3 +41,12 @@ pub fn factory_step(a: &Args) {
     let out = fp::factory_step(a.str("op"), a.str("mode"), a.usize("limit"), &q, a.u64("incoming_expired") == 1, a.u64("draining") == 1, a.str("script"), &flags(a, "choose"));
     println!("out={}", out.replace('=', ":"));
 }
+
+/// factory_finished queue=<keys> draining=0|1 fq=<n>
+pub fn factory_finished(a: &Args) {
+    use ractor::factory::factoryimpl::verif_probe as fp;
+    let rt = tokio::runtime::Builder::new_current_thread().enable_time().build().unwrap();
+    let q: Vec<u64> = a.list_u128("queue").iter().map(|x| *x as u64).collect();
+    let out = rt.block_on(fp::factory_finished(&q, a.u64("draining") == 1, a.usize("fq")));
+    println!("out={}", out.replace('=', ":"));
+}
